@@ -60,30 +60,64 @@ var c03Big = func() []byte {
 	return b
 }()
 
-func c03Tok(t string) []byte {
+func c03Rep(unit string, n int) []byte {
+	b := make([]byte, 0, n)
+	for len(b) < n {
+		b = append(b, unit...)
+	}
+	return b[:n]
+}
+
+// c03Tok concretises a content token: the nominal short bytes, or ("long" runs) 210..300 bytes,
+// long enough for CompressHandler to compress them.
+func c03Tok(t string, long bool) []byte {
 	switch t {
 	case "S":
+		if long {
+			return c03Rep("abc", 300)
+		}
 		return []byte("abc")
 	case "B":
 		return c03Big
 	case "A":
+		if long {
+			return c03Rep("de", 210)
+		}
 		return []byte("de")
 	case "R":
+		if long {
+			return c03Rep("rawbody", 259)
+		}
 		return []byte("rawbody")
 	case "W":
+		if long {
+			return append(c03Rep("sw1", 201), c03Rep("sw2", 201)...) // longer than the long S, as nominally
+		}
 		return []byte("sw1sw2")
 	case "E":
+		if long {
+			return c03Rep("errmsg", 222)
+		}
 		return []byte("errmsg")
 	}
 	panic("c03: unknown token " + t)
 }
 
-func c03Content(toks []string) []byte {
+func c03Content(toks []string, long bool) []byte {
 	var b []byte
 	for _, t := range toks {
-		b = append(b, c03Tok(t)...)
+		b = append(b, c03Tok(t, long)...)
 	}
 	return b
+}
+
+// c03Decl maps a nominal declared size of the S stream (LS-1, LS, LS+2 with LS=3) to the
+// concretisation in use; the sizes of the B stream (4, 5000) are the same in both.
+func c03Decl(d int, long bool) int {
+	if long && d >= 2 && d <= 5 && d != 4 {
+		return d - 3 + len(c03Tok("S", true))
+	}
+	return d
 }
 
 // body stream flavours: fasthttp picks different copy paths depending on the reader's type
@@ -178,7 +212,8 @@ var c03KnownCodes, c03UnregCodes = func() (k, u []int) {
 	return k, u
 }()
 
-func c03ApplyOp(ctx *RequestCtx, op string, flavour, codeK, codeU int) {
+func c03ApplyOp(ctx *RequestCtx, op string, flavour, codeK, codeU int, long bool) {
+	lenS := len(c03Tok("S", long))
 	h := &ctx.Response.Header
 	switch op {
 	case "St204":
@@ -209,42 +244,43 @@ func c03ApplyOp(ctx *RequestCtx, op string, flavour, codeK, codeU int) {
 	case "HandConnClose":
 		h.Set("Connection", "close")
 	case "HandCL3":
-		h.Set("Content-Length", "3")
+		h.Set("Content-Length", fmt.Sprint(lenS))
 	case "TypedCLm1":
 		h.SetContentLength(-1)
 	case "HandTE":
 		h.Set("Transfer-Encoding", "chunked")
 	case "Error":
-		ctx.Error("errmsg", 500)
+		ctx.Error(string(c03Tok("E", long)), 500)
 	case "ResetBody":
 		ctx.ResetBody()
 	case "BodyS":
-		ctx.SetBodyString("abc")
+		ctx.SetBodyString(string(c03Tok("S", long)))
 	case "BodyB":
 		ctx.SetBody(c03Big)
 	case "AppendA":
-		ctx.WriteString("de") //nolint:errcheck
+		ctx.Write(c03Tok("A", long)) //nolint:errcheck
 	case "RawR":
-		ctx.Response.SetBodyRaw([]byte("rawbody"))
+		ctx.Response.SetBodyRaw(c03Tok("R", long))
 	case "StrSExact":
-		ctx.SetBodyStream(c03NewStream([]byte("abc"), flavour), 3)
+		ctx.SetBodyStream(c03NewStream(c03Tok("S", long), flavour), lenS)
 	case "StrSUnk":
-		ctx.SetBodyStream(c03NewStream([]byte("abc"), flavour), -1)
+		ctx.SetBodyStream(c03NewStream(c03Tok("S", long), flavour), -1)
 	case "StrBExact":
 		ctx.SetBodyStream(c03NewStream(c03Big, flavour), 5000)
 	case "StrBUnk":
 		ctx.SetBodyStream(c03NewStream(c03Big, flavour), -1)
 	case "StrSShort":
-		ctx.SetBodyStream(c03NewStream([]byte("abc"), flavour), 5)
+		ctx.SetBodyStream(c03NewStream(c03Tok("S", long), flavour), lenS+2)
 	case "StrSLong":
-		ctx.SetBodyStream(c03NewStream([]byte("abc"), flavour), 2)
+		ctx.SetBodyStream(c03NewStream(c03Tok("S", long), flavour), lenS-1)
 	case "StrBLong":
 		ctx.SetBodyStream(c03NewStream(c03Big, flavour), 4)
 	case "SW":
 		ctx.SetBodyStreamWriter(func(w *bufio.Writer) {
-			w.WriteString("sw1") //nolint:errcheck
-			w.Flush()            //nolint:errcheck
-			w.WriteString("sw2") //nolint:errcheck
+			wb := c03Tok("W", long)
+			w.Write(wb[:len(wb)/2]) //nolint:errcheck
+			w.Flush()               //nolint:errcheck
+			w.Write(wb[len(wb)/2:]) //nolint:errcheck
 		})
 	case "SkipBody":
 		ctx.Response.SkipBody = true
@@ -252,101 +288,6 @@ func c03ApplyOp(ctx *RequestCtx, op string, flavour, codeK, codeU int) {
 		h.SetTrailer("X-A") //nolint:errcheck
 	default:
 		panic("c03: unknown op " + op)
-	}
-}
-
-type c03Srv struct {
-	ln   *fasthttputil.InmemoryListener
-	done chan struct{}
-	mu   sync.Mutex
-	prog []string
-	flav int
-	codeK int
-	codeU int
-}
-
-func c03Start() *c03Srv {
-	s := &c03Srv{ln: fasthttputil.NewInmemoryListener(), done: make(chan struct{})}
-	inner := func(ctx *RequestCtx) {
-		if string(ctx.Path()) == "/canary" {
-			ctx.SetBodyString(c03Marker)
-			return
-		}
-		s.mu.Lock()
-		prog, flav, codeK, codeU := s.prog, s.flav, s.codeK, s.codeU
-		s.mu.Unlock()
-		for _, op := range prog {
-			c03ApplyOp(ctx, op, flav, codeK, codeU)
-		}
-	}
-	comp := CompressHandler(inner)
-	srv := &Server{
-		Handler: func(ctx *RequestCtx) {
-			if len(ctx.Request.Header.Peek("X-Compress")) > 0 {
-				comp(ctx)
-			} else {
-				inner(ctx)
-			}
-		},
-		Logger: c03NullLogger{},
-	}
-	go func() { srv.Serve(s.ln); close(s.done) }() //nolint:errcheck
-	return s
-}
-
-type c03NullLogger struct{}
-
-func (c03NullLogger) Printf(string, ...any) {}
-
-type c03Kind struct {
-	Method string
-	Proto  string
-	Comp   bool
-}
-
-func (k c03Kind) String() string {
-	s := k.Method + "/" + k.Proto[5:]
-	if k.Comp {
-		s += "+gz"
-	}
-	return s
-}
-
-// c03Exchange sends the program request and a pipelined canary and returns every byte the
-// server wrote until the canary marker ended the stream or the server closed the connection.
-func c03Exchange(c net.Conn, k c03Kind) (raw []byte, eof bool, err error) {
-	var req bytes.Buffer
-	ka := ""
-	if k.Proto == "HTTP/1.0" {
-		ka = "Connection: keep-alive\r\n" // otherwise every HTTP/1.0 exchange ends with a close
-	}
-	fmt.Fprintf(&req, "%s /p %s\r\nHost: h\r\n%s", k.Method, k.Proto, ka)
-	if k.Comp {
-		req.WriteString("X-Compress: 1\r\nAccept-Encoding: gzip\r\n")
-	}
-	if k.Method == "POST" {
-		req.WriteString("Content-Length: 2\r\n\r\nhi")
-	} else {
-		req.WriteString("\r\n")
-	}
-	fmt.Fprintf(&req, "GET /canary %s\r\nHost: h\r\n%s\r\n", k.Proto, ka)
-	c.SetDeadline(time.Now().Add(60 * time.Second)) //nolint:errcheck
-	if _, err = c.Write(req.Bytes()); err != nil {
-		return nil, false, fmt.Errorf("write: %w", err)
-	}
-	buf := make([]byte, 8192)
-	for {
-		n, rerr := c.Read(buf)
-		raw = append(raw, buf[:n]...)
-		if bytes.HasSuffix(raw, []byte(c03Marker)) {
-			return raw, false, nil
-		}
-		if rerr == io.EOF {
-			return raw, true, nil
-		}
-		if rerr != nil {
-			return raw, false, fmt.Errorf("read: %w", rerr)
-		}
 	}
 }
 
@@ -372,8 +313,11 @@ func c03Clip(b []byte) string {
 
 // c03Judge compares what the peer saw with the reference view. It returns (category, detail)
 // pairs; an empty result means conformance.
-func c03Judge(v *c03View, k c03Kind, raw []byte, eof bool, codeK, codeU int) [][2]string {
-	var out [][2]string
+// c03Judge compares one response of a batch with its reference view. raw starts where this
+// response must start; last tells whether only the canary follows. It returns the violations,
+// the bytes after this response and whether the batch ends here (close or lost framing).
+func c03Judge(v *c03View, k c03Kind, raw []byte, eof, last, nextMismatch bool, j *c03Job) (out [][2]string, rest []byte, stop bool) {
+	codeK, codeU, long := j.codeK, j.codeU, j.long
 	bad := func(cat, f string, a ...any) { out = append(out, [2]string{cat, fmt.Sprintf(f, a...)}) }
 	hasCanary := bytes.Contains(raw, []byte(c03Marker))
 
@@ -386,25 +330,25 @@ func c03Judge(v *c03View, k c03Kind, raw []byte, eof bool, codeK, codeU int) [][
 			bad("mismatch-canary-answered", "a request was served on the connection after a mis-sized body stream")
 		}
 		if i := bytes.Index(raw, []byte("\r\n\r\n")); i >= 0 {
-			if nb := len(raw) - (i + 4); nb > v.Declared {
-				bad("mismatch-wire-exceeds-declared", "%d body bytes on the wire for a stream declared as %d bytes", nb, v.Declared)
+			if nb := len(raw) - (i + 4); nb > c03Decl(v.Declared, long) {
+				bad("mismatch-wire-exceeds-declared", "%d body bytes on the wire for a stream declared as %d bytes", nb, c03Decl(v.Declared, long))
 			}
 		}
-		return out
+		return out, nil, true
 	}
 
 	br := bufio.NewReader(bytes.NewReader(raw))
 	resp, err := http.ReadResponse(br, &http.Request{Method: k.Method})
 	if err != nil {
 		bad("unparsable", "net/http cannot parse the response: %v; wire=%s", err, c03Clip(raw))
-		return out
+		return out, nil, true
 	}
 	body, berr := io.ReadAll(resp.Body)
 	if berr != nil {
 		bad("body-read-error", "net/http body read: %v after %d bytes; wire=%s", berr, len(body), c03Clip(raw))
-		return out
+		return out, nil, true
 	}
-	rest, _ := io.ReadAll(br)
+	rest, _ = io.ReadAll(br)
 
 	wantStatus := v.Status
 	switch wantStatus {
@@ -457,7 +401,7 @@ func c03Judge(v *c03View, k c03Kind, raw []byte, eof bool, codeK, codeU int) [][
 	}
 	okBody := false
 	for _, alt := range v.Bodies {
-		if bytes.Equal(plain, c03Content(alt)) {
+		if bytes.Equal(plain, c03Content(alt, long)) {
 			okBody = true
 		}
 	}
@@ -465,21 +409,35 @@ func c03Judge(v *c03View, k c03Kind, raw []byte, eof bool, codeK, codeU int) [][
 		bad("body", "peer body %s (%d bytes), reference %v; head=%s", c03Clip(plain), len(plain), v.Bodies, c03Clip(raw))
 	}
 	// what follows this response
-	if eof {
-		if len(rest) != 0 {
-			bad("bytes-after-response", "%d stray bytes between the response and the close: %s", len(rest), c03Clip(rest))
+	closedHere := eof && len(rest) == 0
+	switch {
+	case v.MustClose:
+		// the connection ends here: nothing more on the wire, no later request served
+		if len(rest) != 0 || !eof {
+			bad("not-closed", "the handler asked to close the connection but %d more bytes were served: %s", len(rest), c03Clip(rest))
 		}
-		if !v.MustClose && !resp.Close {
+		return out, nil, true
+	case closedHere && nextMismatch:
+		// the next program's body stream is mis-sized: the reference lets its response be absent
+		// altogether and requires the close
+		return out, nil, true
+	case closedHere:
+		if !resp.Close {
 			bad("closed-without-announcement", "connection closed although neither the handler nor the response asked for it")
 		}
-	} else {
-		if v.MustClose {
-			bad("not-closed", "the handler asked to close the connection but the canary request was served: %s", c03Clip(rest))
+		if !last {
+			bad("pipelined-requests-dropped", "the connection was closed with pipelined requests left unanswered")
+		}
+		return out, nil, true
+	case last:
+		if eof {
+			bad("bytes-after-response", "%d stray bytes between the response and the close: %s", len(rest), c03Clip(rest))
 		} else if !c03IsCanary(rest) {
 			bad("next-response-misplaced", "the canary response does not start where this response ends; remainder=%s", c03Clip(rest))
 		}
+		return out, nil, true
 	}
-	return out
+	return out, rest, len(out) > 0
 }
 
 // c03OrderOnly returns "-order" when got is a permutation of want (same field lines, other
@@ -517,13 +475,158 @@ type c03Job struct {
 	flav  int
 	codeK int
 	codeU int
+	long  bool
+}
+
+func (j *c03Job) view() (*c03View, []string) {
+	if j.k.Method == "HEAD" {
+		return &j.v.Head, j.v.HeadTags
+	}
+	return &j.v.Get, j.v.GetTags
+}
+
+// one server per (worker, configuration); the handler looks the program up by the request path
+type c03Srv struct {
+	ln    *fasthttputil.InmemoryListener
+	done  chan struct{}
+	mu    sync.Mutex
+	batch []*c03Job
+}
+
+func c03Start(config string) *c03Srv {
+	s := &c03Srv{ln: fasthttputil.NewInmemoryListener(), done: make(chan struct{})}
+	inner := func(ctx *RequestCtx) {
+		path := string(ctx.Path())
+		if path == "/canary" {
+			ctx.SetBodyString(c03Marker)
+			return
+		}
+		var idx int
+		fmt.Sscanf(path, "/p%d", &idx) //nolint:errcheck
+		s.mu.Lock()
+		var j *c03Job
+		if idx < len(s.batch) {
+			j = s.batch[idx]
+		}
+		s.mu.Unlock()
+		if j == nil {
+			ctx.Error("c03: no such program", 599)
+			return
+		}
+		for _, op := range j.v.Prog {
+			c03ApplyOp(ctx, op, j.flav, j.codeK, j.codeU, j.long)
+		}
+	}
+	comp := CompressHandler(inner)
+	srv := &Server{
+		Handler: func(ctx *RequestCtx) {
+			if len(ctx.Request.Header.Peek("X-Compress")) > 0 {
+				comp(ctx)
+			} else {
+				inner(ctx)
+			}
+		},
+		Logger: c03NullLogger{},
+	}
+	switch config {
+	case "default":
+	case "reduce-memory":
+		srv.ReduceMemoryUsage = true
+	case "small-buffers":
+		srv.ReadBufferSize, srv.WriteBufferSize = 256, 64
+	case "reduce-memory-small-buffers":
+		srv.ReduceMemoryUsage = true
+		srv.ReadBufferSize, srv.WriteBufferSize = 256, 64
+	case "no-default-headers":
+		srv.NoDefaultServerHeader, srv.NoDefaultDate, srv.NoDefaultContentType = true, true, true
+	default:
+		panic("c03: unknown server configuration " + config)
+	}
+	go func() { srv.Serve(s.ln); close(s.done) }() //nolint:errcheck
+	return s
+}
+
+type c03NullLogger struct{}
+
+func (c03NullLogger) Printf(string, ...any) {}
+
+type c03Kind struct {
+	Method string
+	Proto  string
+	Comp   bool
+}
+
+func (k c03Kind) String() string {
+	s := k.Method + "/" + k.Proto[5:]
+	if k.Comp {
+		s += "+gz"
+	}
+	return s
+}
+
+// c03Exchange writes the batch's requests and a canary request in ONE write and returns every
+// byte the server wrote until the canary marker ended the stream or the server closed.
+func c03Exchange(c net.Conn, batch []*c03Job) (raw []byte, eof bool, err error) {
+	var req bytes.Buffer
+	proto := "HTTP/1.1"
+	for i, j := range batch {
+		k := j.k
+		proto = k.Proto
+		ka := ""
+		if k.Proto == "HTTP/1.0" {
+			ka = "Connection: keep-alive\r\n" // otherwise every HTTP/1.0 exchange ends with a close
+		}
+		fmt.Fprintf(&req, "%s /p%d %s\r\nHost: h\r\n%s", k.Method, i, k.Proto, ka)
+		if k.Comp {
+			req.WriteString("X-Compress: 1\r\nAccept-Encoding: gzip\r\n")
+		}
+		if k.Method == "POST" {
+			req.WriteString("Content-Length: 2\r\n\r\nhi")
+		} else {
+			req.WriteString("\r\n")
+		}
+	}
+	ka := ""
+	if proto == "HTTP/1.0" {
+		ka = "Connection: keep-alive\r\n"
+	}
+	fmt.Fprintf(&req, "GET /canary %s\r\nHost: h\r\n%s\r\n", proto, ka)
+	c.SetDeadline(time.Now().Add(60 * time.Second)) //nolint:errcheck
+	if _, err = c.Write(req.Bytes()); err != nil {
+		return nil, false, fmt.Errorf("write: %w", err)
+	}
+	buf := make([]byte, 8192)
+	for {
+		n, rerr := c.Read(buf)
+		raw = append(raw, buf[:n]...)
+		if bytes.HasSuffix(raw, []byte(c03Marker)) {
+			return raw, false, nil
+		}
+		if rerr == io.EOF {
+			return raw, true, nil
+		}
+		if rerr != nil {
+			return raw, false, fmt.Errorf("read: %w", rerr)
+		}
+	}
 }
 
 func TestVerifC03RespFraming(t *testing.T) {
 	vfOpen(t)
 	rng := vfRand()
 	var vecs []*c03Vec
+	configs := []string{"default"}
 	vfEachLine(t, "", func(line []byte) {
+		if bytes.Contains(line, []byte(`"@configs"`)) {
+			var c struct {
+				Configs []string `json:"configs"`
+			}
+			if err := json.Unmarshal(line, &c); err != nil || len(c.Configs) == 0 {
+				t.Fatalf("bad configuration record %s: %v", line, err)
+			}
+			configs = c.Configs
+			return
+		}
 		v := new(c03Vec)
 		if err := json.Unmarshal(line, v); err != nil {
 			t.Fatalf("bad vector %s: %v", line, err)
@@ -540,17 +643,52 @@ func TestVerifC03RespFraming(t *testing.T) {
 	// perLong seed-chosen kinds
 	fullLen := vfEnvInt("VERIF_C03_FULLLEN", 2)
 	perLong := vfEnvInt("VERIF_C03_PERLONG", 2)
-	var jobs []c03Job
+	var jobs []*c03Job
+	mk := func(v *c03Vec, k c03Kind) {
+		j := &c03Job{v: v, k: k, flav: rng.Intn(c03Flavours), codeK: c03KnownCodes[rng.Intn(len(c03KnownCodes))],
+			codeU: c03UnregCodes[rng.Intn(len(c03UnregCodes))], long: rng.Intn(2) == 0}
+		if view, _ := j.view(); k.Comp && view.Mismatch {
+			return // compression re-frames the stream: stated assumption
+		}
+		jobs = append(jobs, j)
+	}
 	for _, v := range vecs {
 		if len(v.Prog) <= fullLen {
 			for _, k := range kinds {
-				jobs = append(jobs, c03Job{v, k, rng.Intn(c03Flavours), c03KnownCodes[rng.Intn(len(c03KnownCodes))], c03UnregCodes[rng.Intn(len(c03UnregCodes))]})
+				mk(v, k)
 			}
 		} else {
 			for _, i := range rng.Perm(len(kinds))[:perLong] {
-				jobs = append(jobs, c03Job{v, kinds[i], rng.Intn(c03Flavours), c03KnownCodes[rng.Intn(len(c03KnownCodes))], c03UnregCodes[rng.Intn(len(c03UnregCodes))]})
+				mk(v, kinds[i])
 			}
 		}
+	}
+	rng.Shuffle(len(jobs), func(a, b int) { jobs[a], jobs[b] = jobs[b], jobs[a] })
+	// batches: 1..3 jobs written at once on one connection, against one server configuration.
+	// A program carrying the label of a recorded deviation runs alone, so that the deviation
+	// cannot disturb (or hide behind) its neighbours.
+	type c03Batch struct {
+		jobs   []*c03Job
+		config string
+	}
+	var batches []c03Batch
+	for i := 0; i < len(jobs); {
+		n := 1 + rng.Intn(3)
+		b := c03Batch{config: configs[rng.Intn(len(configs))]}
+		for ; n > 0 && i < len(jobs); i++ {
+			_, tags := jobs[i].view()
+			if len(tags) > 0 {
+				if len(b.jobs) > 0 {
+					break
+				}
+				b.jobs = append(b.jobs, jobs[i])
+				i++
+				break
+			}
+			b.jobs = append(b.jobs, jobs[i])
+			n--
+		}
+		batches = append(batches, b)
 	}
 
 	var dump *os.File // triage aid: every violation, uncapped
@@ -559,9 +697,10 @@ func TestVerifC03RespFraming(t *testing.T) {
 		defer dump.Close()
 	}
 	var mu sync.Mutex
-	evals, nontriv := 0, 0
+	evals, nontriv, pipelined := 0, 0, 0
 	catCount := map[string]int{}
 	perClass := map[string]int{}
+	perConfig := map[string]int{}
 	var infra string
 
 	nw := vfEnvInt("VERIF_C03_WORKERS", 4)
@@ -570,26 +709,28 @@ func TestVerifC03RespFraming(t *testing.T) {
 		wg.Add(1)
 		go func(w int) {
 			defer wg.Done()
-			srv := c03Start()
-			defer func() { srv.ln.Close(); <-srv.done }()
-			var conn net.Conn
+			srvs := map[string]*c03Srv{}
+			conns := map[string]net.Conn{}
 			defer func() {
-				if conn != nil {
-					conn.Close()
+				for c, s := range srvs {
+					if conns[c] != nil {
+						conns[c].Close()
+					}
+					s.ln.Close()
+					<-s.done
 				}
 			}()
-			for ji := w; ji < len(jobs); ji += nw {
-				j := jobs[ji]
-				view, tags := &j.v.Get, j.v.GetTags
-				if j.k.Method == "HEAD" {
-					view, tags = &j.v.Head, j.v.HeadTags
-				}
-				if j.k.Comp && view.Mismatch {
-					continue // compression re-frames the stream: stated assumption
+			for bi := w; bi < len(batches); bi += nw {
+				b := batches[bi]
+				srv := srvs[b.config]
+				if srv == nil {
+					srv = c03Start(b.config)
+					srvs[b.config] = srv
 				}
 				srv.mu.Lock()
-				srv.prog, srv.flav, srv.codeK, srv.codeU = j.v.Prog, j.flav, j.codeK, j.codeU
+				srv.batch = b.jobs
 				srv.mu.Unlock()
+				conn := conns[b.config]
 				if conn == nil {
 					c, err := srv.ln.Dial()
 					if err != nil {
@@ -599,49 +740,86 @@ func TestVerifC03RespFraming(t *testing.T) {
 						return
 					}
 					conn = c
+					conns[b.config] = c
 				}
-				raw, eof, err := c03Exchange(conn, j.k)
+				raw, eof, err := c03Exchange(conn, b.jobs)
 				if err != nil {
 					mu.Lock()
-					infra = fmt.Sprintf("exchange %v %v: %v (after %d bytes)", j.v.Prog, j.k, err, len(raw))
+					infra = fmt.Sprintf("exchange %v: %v (after %d bytes)", b.jobs[0].v.Prog, err, len(raw))
 					mu.Unlock()
 					return
 				}
-				res := c03Judge(view, j.k, raw, eof, j.codeK, j.codeU)
-				// a connection is reused only after a cleanly framed exchange
-				if eof || len(res) > 0 {
-					conn.Close()
-					conn = nil
-				}
-				mu.Lock()
-				evals++
-				if c03Nontrivial(j.v.Prog, j.k) {
-					nontriv++
-				}
-				if evals%20000 == 1 {
-					vfSample(vfRec{"prog": j.v.Prog, "kind": j.k.String(), "expect": view})
-				}
-				for _, r := range res {
-					catCount[r[0]]++
-					if dump != nil {
-						fmt.Fprintf(dump, "%v|%s|%s|%s|f%d|%s\n", tags, r[0], j.k.String(), strings.Join(j.v.Prog, ","), j.flav%c03Flavours, r[1])
+				// judge the responses one after the other
+				clean := !eof
+				cur := raw
+				for ji, j := range b.jobs {
+					view, tags := j.view()
+					nextMismatch, laterMismatch := false, false
+					for x := ji + 1; x < len(b.jobs); x++ {
+						if nv, _ := b.jobs[x].view(); nv.Mismatch {
+							laterMismatch = true
+							nextMismatch = nextMismatch || x == ji+1
+						}
 					}
-				}
-				mu.Unlock()
-				for _, r := range res {
-					// at most 12 reports per (labels, category) so that one class cannot crowd out
-					// the others within vfViol's overall cap
+					res, rest, stop := c03Judge(view, j.k, cur, eof, ji == len(b.jobs)-1, nextMismatch, j)
+					if laterMismatch && eof && len(res) > 0 && (res[0][0] == "unparsable" || res[0][0] == "body-read-error") {
+						// label of a recorded deviation (F-C03-8): a response that precedes, in the same
+						// batch, a response whose write must fail, is missing or cut short at the close
+						tags = append(append([]string(nil), tags...), "before-failed-write-in-batch")
+					}
 					mu.Lock()
-					perClass[fmt.Sprint(tags)+r[0]]++
-					over := perClass[fmt.Sprint(tags)+r[0]] > 12
-					mu.Unlock()
-					if over {
-						continue
+					evals++
+					perConfig[b.config]++
+					if len(b.jobs) > 1 {
+						pipelined++
 					}
-					// key: [labels of recorded deviations]|category|request kind|program
-					key := fmt.Sprintf("[%s]|%s|%s|%s", strings.Join(tags, ","), r[0], j.k.String(), strings.Join(j.v.Prog, ","))
-					vfViol(key, fmt.Sprintf("program %v, request %s, stream flavour %d, StKnown=%d StUnreg=%d: %s", j.v.Prog, j.k, j.flav%c03Flavours, j.codeK, j.codeU, r[1]),
-						vfRec{"prog": j.v.Prog, "kind": j.k.String(), "flavour": j.flav % c03Flavours, "view": view, "wire_prefix": c03Clip(raw)})
+					if c03Nontrivial(j.v.Prog, j.k) {
+						nontriv++
+					}
+					if evals%20000 == 1 {
+						vfSample(vfRec{"prog": j.v.Prog, "kind": j.k.String(), "config": b.config, "batch_size": len(b.jobs), "long": j.long, "expect": view})
+					}
+					var report [][2]string
+					for _, r := range res {
+						catCount[r[0]]++
+						if dump != nil {
+							fmt.Fprintf(dump, "%v|%s|%s|%s|f%d %s b%d/%d long=%v|%s\n", tags, r[0], j.k.String(), strings.Join(j.v.Prog, ","), j.flav%c03Flavours, b.config, ji, len(b.jobs), j.long, r[1])
+						}
+						// at most 12 reports per (labels, category) so that one class cannot crowd out
+						// the others within vfViol's overall cap
+						perClass[fmt.Sprint(tags)+r[0]]++
+						if perClass[fmt.Sprint(tags)+r[0]] <= 12 {
+							report = append(report, r)
+						}
+					}
+					mu.Unlock()
+					for _, r := range report {
+						// key: [labels of recorded deviations]|category|request kind|program
+						key := fmt.Sprintf("[%s]|%s|%s|%s", strings.Join(tags, ","), r[0], j.k.String(), strings.Join(j.v.Prog, ","))
+						var progs [][]string
+						for _, x := range b.jobs {
+							progs = append(progs, x.v.Prog)
+						}
+						vfViol(key, fmt.Sprintf("program %v (request %d of a batch of %d, server %s), request %s, stream flavour %d, long=%v, StKnown=%d StUnreg=%d: %s",
+							j.v.Prog, ji+1, len(b.jobs), b.config, j.k, j.flav%c03Flavours, j.long, j.codeK, j.codeU, r[1]),
+							vfRec{"prog": j.v.Prog, "kind": j.k.String(), "flavour": j.flav % c03Flavours, "config": b.config, "batch": progs,
+								"position": ji, "long": j.long, "view": view, "wire_prefix": c03Clip(cur)})
+					}
+					if len(res) > 0 {
+						clean = false
+					}
+					if stop {
+						if ji != len(b.jobs)-1 || len(res) > 0 {
+							clean = false
+						}
+						break
+					}
+					cur = rest
+				}
+				// a connection is reused only after a cleanly framed exchange
+				if !clean {
+					conn.Close()
+					conns[b.config] = nil
 				}
 			}
 		}(w)
@@ -650,6 +828,7 @@ func TestVerifC03RespFraming(t *testing.T) {
 	if infra != "" {
 		vfInfra("c03: " + infra)
 	}
-	vfStat(evals, nontriv, vfRec{"programs": len(vecs), "violation_categories": catCount})
+	vfStat(evals, nontriv, vfRec{"programs": len(vecs), "batches": len(batches), "pipelined_evaluations": pipelined,
+		"per_server_config": perConfig, "violation_categories": catCount})
 	vfDone()
 }
